@@ -2,12 +2,23 @@
     equal the corresponding functions of the hand-written model, for ALL arguments.  These equalities are what ties
     the model to the code by proof rather than by sampling for the decision tables of src/ext.rs and the integer
     arithmetic of src/body.rs; the property files that depend on them re-export them. *)
-From Coq Require Import NArith Bool List Lia.
+From Coq Require Import NArith ZArith Bool List Lia ZifyBool ZifyN.
+Ltac Zify.zify_post_hook ::= Z.div_mod_to_equations.
 From Hoot Require Import Base Body Url Request Call Flow Gen.
 Open Scope N_scope.
 
+(** Robust against arithmetic rewrites of the Rust function: after unfolding both sides and splitting the
+    conditionals, the equality is linear arithmetic with division and remainder by a constant. *)
 Lemma gen_calculate_max_input_eq n : gen_calculate_max_input n = calculate_max_input n.
-Proof. reflexivity. Qed.
+Proof.
+  first
+    [ reflexivity
+    | unfold gen_calculate_max_input, calculate_max_input, DEFAULT_CHUNK_SIZE, DEFAULT_CHUNK_OVERHEAD; cbv zeta;
+      repeat match goal with
+             | |- context [if ?c then _ else _] => destruct c eqn:?
+             end;
+      lia ].
+Qed.
 
 Lemma gen_fit_loop_eq f a m b d l :
   fst (fst (gen_max_chunk_fit_loop1 f a m b d l)) = fit_loop f a m b d l.
